@@ -45,6 +45,11 @@ type Solver struct {
 	timeoutMs  int
 	buf        strings.Builder
 	kind       string
+	dead       bool
+	slow       int
+	stack      [][]*Term // assertions per level (level 0 first)
+	OneShots   int
+	OneShotOK  int
 }
 
 func solverArgs(kind string, timeoutMs int) (string, []string) {
@@ -73,6 +78,12 @@ func NewSolver(ts *TermStore, kind string, timeoutMs int) (*Solver, error) {
 		return nil, err
 	}
 	s := &Solver{cmd: cmd, in: in, out: bufio.NewReaderSize(out, 1<<16), ts: ts, timeoutMs: timeoutMs, kind: kind}
+	s.stack = [][]*Term{nil}
+	if d := os.Getenv("VERIF_SMTLOG"); d != "" {
+		os.MkdirAll(d, 0o755)
+		f, _ := os.CreateTemp(d, "w*.smt2")
+		s.log = f
+	}
 	if kind != "cvc5" {
 		s.send("(set-option :global-decls true)\n")
 	}
@@ -96,7 +107,13 @@ func (s *Solver) send(str string) {
 	if s.log != nil {
 		io.WriteString(s.log, str)
 	}
+	if s.dead {
+		return
+	}
 	if _, err := io.WriteString(s.in, str); err != nil {
+		if s.dead {
+			return
+		}
 		panic(engineError{"solver pipe write: " + err.Error()})
 	}
 }
@@ -175,6 +192,7 @@ func (s *Solver) flush() {
 func (s *Solver) Push() {
 	s.buf.WriteString("(push 1)\n")
 	s.levels++
+	s.stack = append(s.stack, nil)
 }
 
 func (s *Solver) Pop(n int) {
@@ -183,6 +201,7 @@ func (s *Solver) Pop(n int) {
 	}
 	fmt.Fprintf(&s.buf, "(pop %d)\n", n)
 	s.levels -= n
+	s.stack = s.stack[:len(s.stack)-n]
 }
 
 func (s *Solver) Assert(t *Term) {
@@ -191,11 +210,15 @@ func (s *Solver) Assert(t *Term) {
 	}
 	s.define(t)
 	fmt.Fprintf(&s.buf, "(assert %s)\n", t.ref())
+	s.stack[len(s.stack)-1] = append(s.stack[len(s.stack)-1], t)
 }
 
 func (s *Solver) readLine() string {
 	line, err := s.out.ReadString('\n')
 	if err != nil {
+		if s.dead {
+			return "unknown"
+		}
 		panic(engineError{"solver pipe read: " + err.Error()})
 	}
 	return strings.TrimSpace(line)
@@ -203,9 +226,38 @@ func (s *Solver) readLine() string {
 
 // Check runs check-sat. On Sat, if m != nil the model is read into it.
 func (s *Solver) Check(m *Model) SatResult {
+	if s.dead {
+		return Unknown
+	}
+	// adaptive: after a slow/unknown incremental answer, ask the one-shot
+	// tactic solver first; probe the incremental core again now and then
+	if s.slow > 0 {
+		s.slow--
+		s.Queries++
+		t1 := time.Now()
+		r := s.oneShot(m)
+		if time.Since(t1) > 1500*time.Millisecond && s.slow < 4 {
+			s.slow += 1
+		}
+		switch r {
+		case Sat:
+			s.NSat++
+			return r
+		case Unsat:
+			s.NUnsat++
+			return r
+		}
+		s.Queries--
+	}
 	s.buf.WriteString("(check-sat)\n")
 	s.flush()
 	t0 := time.Now()
+	// hard watchdog: z3's soft timeout is not honoured inside some tactics
+	wd := time.AfterFunc(time.Duration(s.timeoutMs)*time.Millisecond+5*time.Second, func() {
+		s.dead = true
+		s.cmd.Process.Kill()
+	})
+	defer wd.Stop()
 	var res SatResult
 	for {
 		line := s.readLine()
@@ -242,10 +294,107 @@ func (s *Solver) Check(m *Model) SatResult {
 	default:
 		s.NUnknown++
 	}
+	if time.Since(t0) > time.Second {
+		s.slow = 8
+	}
+	if s.dead || res == Unknown {
+		s.slow = 16
+		// fall back to a one-shot query in tactic mode (QF_BV, bit-blasting)
+		r2 := s.oneShot(m)
+		if r2 != Unknown {
+			s.NUnknown--
+			if r2 == Sat {
+				s.NSat++
+			} else {
+				s.NUnsat++
+			}
+		}
+		return r2
+	}
 	if res == Sat && m != nil {
 		s.readModel(m)
 	}
 	return res
+}
+
+// oneShot decides the current assertion stack in a fresh solver process
+// with (set-logic QF_BV): the tactic-based solver is far stronger on
+// arithmetic-heavy queries than the incremental core.
+func (s *Solver) oneShot(m *Model) SatResult {
+	s.OneShots++
+	t0 := time.Now()
+	defer func() { s.SolverTime += time.Since(t0) }()
+	var sb strings.Builder
+	sb.WriteString("(set-logic QF_BV)\n")
+	defd := map[int32]bool{}
+	var vars []*Term
+	var def func(t *Term)
+	def = func(t *Term) {
+		if defd[t.id] || t.op == OConst {
+			return
+		}
+		defd[t.id] = true
+		if t.op == OVar {
+			fmt.Fprintf(&sb, "(declare-const %s %s)\n", t.name, sortOf(t.w))
+			vars = append(vars, t)
+			return
+		}
+		for _, c := range []*Term{t.a, t.b, t.c} {
+			if c != nil {
+				def(c)
+			}
+		}
+		fmt.Fprintf(&sb, "(define-fun t%d () %s %s)\n", t.id, sortOf(t.w), t.body())
+	}
+	for _, lvl := range s.stack {
+		for _, t := range lvl {
+			def(t)
+			fmt.Fprintf(&sb, "(assert %s)\n", t.ref())
+		}
+	}
+	sb.WriteString("(check-sat)\n")
+	if m != nil && len(vars) > 0 {
+		sb.WriteString("(get-value (")
+		for _, v := range vars {
+			sb.WriteString(v.name + " ")
+		}
+		sb.WriteString("))\n")
+	}
+	f, err := os.CreateTemp("", "symgo-q-*.smt2")
+	if err != nil {
+		return Unknown
+	}
+	defer os.Remove(f.Name())
+	f.WriteString(sb.String())
+	f.Close()
+	secs := s.timeoutMs/1000 + 1
+	out, _ := exec.Command("z3-new", "-T:"+strconv.Itoa(secs), f.Name()).Output()
+	o := strings.TrimSpace(string(out))
+	if strings.Contains(o, "(error") && !strings.HasPrefix(o, "unsat") {
+		return Unknown
+	}
+	switch {
+	case strings.HasPrefix(o, "unsat"):
+		s.OneShotOK++
+		return Unsat
+	case strings.HasPrefix(o, "sat"):
+		s.OneShotOK++
+		if m != nil {
+			m.vals = map[int32]uint64{}
+			m.cache = map[int32]uint64{}
+			toks := strings.FieldsFunc(o[3:], func(r rune) bool { return r == '(' || r == ')' || r == ' ' || r == '\n' || r == '\t' })
+			by := map[string]uint64{}
+			for i := 0; i+1 < len(toks); i += 2 {
+				by[toks[i]] = parseLit(toks[i+1])
+			}
+			for _, v := range vars {
+				m.vals[v.id] = by[v.name]
+			}
+			// variables declared in the incremental solver but unconstrained here default to 0
+		}
+		return Sat
+	}
+	return Unknown
 }
 
 func (s *Solver) readModel(m *Model) {
